@@ -29,7 +29,7 @@ TRANSLATORS = ['purefuns_peek']
 
 TRUSTED_BASE = [
     'translator translate/purefuns_peek.py (ast -> Gallina for ReadLinesByKey, AssignKey, peek_textio.write) and the '
-    'vocabulary coq/theories/Stdout/Prim.v giving the meaning of str +, endswith, in, defaultdict get/set/pop, truthiness',
+    'vocabulary coq/theories/Stdout/Prim.v giving the meaning of str +, endswith, in, rindex, slicing, defaultdict get/set/pop, truthiness',
     'hand-written wiring in Stdout/Model.v (peek_stdout_by_key, PeekStdout, Repeater.on_write_stdout); its ast shape is pinned '
     'by the translator and its behaviour is compared with the real code on every run',
     'correspondence harness harness/props/c13.py (program generator, derivation of the write() calls made by print(), '
@@ -218,7 +218,7 @@ def gen_pure_cases(rng, n_each: int, maxlen: int):
 
 
 FIXED_PLAIN = [
-    # the witness of C13_up_to_last_newline_refuted
+    # regression: the line completed in the middle of a write (defect repaired in /repo 7420fde)
     [[1, ['write', 'd\ne']]],
     [[1, ['write', 'a']], [2, ['write', 'x']], [1, ['write', 'b\n']], [2, ['write', 'y\n']]],
     [[1, ['print', ['a', 'b'], None, None]], [None, ['print', ['u'], None, None]], [0, ['write', 'z\n']]],
@@ -607,7 +607,7 @@ def _has_trailing(writes) -> bool:
 
 
 def fixed_programs() -> list[dict]:
-    """Hand-written programs run first (the first one is the minimal witness of the refuted clause)."""
+    """Hand-written programs run first (the first one is the minimal program of the defect repaired in /repo 7420fde)."""
     def P(src, writers, seq=None, cat='fixed'):
         d = {'src': src, 'cat': cat, 'concurrent': seq is None, 'writers': writers, 'trace_threads': True}
         if seq is not None:
